@@ -304,9 +304,16 @@ def count(domain: Any, pred: Callable) -> int:
     return sum(1 for x in domain if pred(x))
 
 
+NATIVE_STRINGS: Optional[set] = None
+
+
 def forall_str(pred: Callable) -> bool:
-    """for all strings (symbolic only)"""
-    raise NotImplementedError("forall_str has no native evaluation")
+    """for all strings. Symbolically a universal quantifier; natively (replay of a counter-model) it is evaluated
+    over the strings occurring in the arguments and the result plus one fresh string: a string found there that
+    falsifies the predicate is a genuine witness, `True` only means none was found."""
+    if NATIVE_STRINGS is None:
+        raise NotImplementedError("forall_str has no native evaluation outside a replay")
+    return all(pred(x) for x in sorted(NATIVE_STRINGS) + ["~some other string~"])
 
 
 def isnone(x: Any) -> bool:
